@@ -154,7 +154,7 @@ def regExec (s : Sys) (sender : Addr) (m : RegMsg) : Res (RegSt × List Msg) :=
     let validators := sortAscAmt s'.regValidatorsRaw
     let d := if r.hub = hubA then s.chain.deleg v else 0
     if !(r.hub = hubA ∧ s.chain.delegSet v) then .ok []    -- query_delegation returned None
-    else if s.chain.noRedelegate v then .ok []             -- can_redelegate < amount
+    else if s.chain.noRedelegate v ∧ 0 < d then .ok []     -- can_redelegate (0 when blocked) < amount
     else
       match calculateDelegations d (validators.map (·.2)) with
       | none => .error "Empty validators set"
